@@ -279,20 +279,30 @@ def install_request(e):
             c.ghost["draws"] = c.fresh("int", "draws")
             c.assume(z(c.ghost["draws"]) >= 0)
             opts = {}
+            group = header_kind.split("+")[1] if "+" in header_kind else "all"
+            hk = header_kind.split("+")[0]
             P = lambda n: smt.fresh(smt.Bool, f"has_{n}")
-            opts["host"] = (P("host"), c.fresh("str", "opt_host"))
-            opts["origin"] = (P("origin"), c.fresh(("opt!", "str"), "opt_origin"))
-            opts["suppress_origin"] = (P("suppress_origin"), c.fresh("bool", "opt_suppress"))
-            opts["connection"] = (P("connection"), c.fresh("str", "opt_connection"))
-            opts["cookie"] = (P("cookie"), c.fresh("str", "opt_cookie"))
-            nsub = c.choose(3)
-            if nsub:
-                opts["subprotocols"] = (True, c.alloc("list", None, [c.fresh("str", f"sub{i}") for i in range(nsub)]))
-            if header_kind == "list":
+            if group in ("all", "addressing"):
+                opts["host"] = (P("host"), c.fresh("str", "opt_host"))
+                opts["origin"] = (P("origin"), c.fresh(("opt!", "str"), "opt_origin"))
+                opts["suppress_origin"] = (P("suppress_origin"), c.fresh("bool", "opt_suppress"))
+            if group in ("all", "negotiation"):
+                opts["connection"] = (P("connection"), c.fresh("str", "opt_connection"))
+                opts["cookie"] = (P("cookie"), c.fresh("str", "opt_cookie"))
+                nsub = c.choose(3)
+                if nsub:
+                    opts["subprotocols"] = (True, c.alloc("list", None, [c.fresh("str", f"sub{i}") for i in range(nsub)]))
+            if group == "everything":
+                for k_, sh_ in (("host", "str"), ("origin", "str"), ("connection", "str"), ("cookie", "str")):
+                    opts[k_] = (True, c.fresh(sh_, "opt_" + k_))
+                opts["suppress_origin"] = (True, c.fresh("bool", "opt_suppress"))
+                opts["subprotocols"] = (True, c.alloc("list", None, [c.fresh("str", "sub0"), c.fresh("str", "sub1")]))
+            header_kind_ = hk
+            if header_kind_ == "list":
                 opts["header"] = (True, c.alloc("list", None, [c.fresh("str", "hdr0"), c.fresh("str", "hdr1")]))
-            elif header_kind == "dict":
+            elif header_kind_ == "dict":
                 opts["header"] = (True, c.alloc("dict", None, {"X-A": (True, c.fresh("str", "hv0")), "X-None": (True, None)}))
-            elif header_kind == "dict-own-key":
+            elif header_kind_ == "dict-own-key":
                 opts["header"] = (True, c.alloc("dict", None, {"Sec-WebSocket-Key": (True, c.fresh("str", "ownkey")),
                                                                "Sec-WebSocket-Version": (True, c.fresh("str", "ownver"))}))
             return dict(resource=c.fresh("str", "resource"), url=c.fresh("str", "url"), host=c.fresh("str", "host"), port=c.fresh("int", "port"),
@@ -300,7 +310,12 @@ def install_request(e):
         return case
 
     def ghh_req(c, a):
-        return z3.Contains(z(a["url"]), z3.StringVal(":"))
+        conds = [z3.Contains(z(a["url"]), z3.StringVal(":"))]
+        hd = c.cell(a["options"]).data.get("header")
+        if hd is not None and c.cell(hd[1]).kind == "list":
+            # entries of a header list are complete header lines ("Name: value")
+            conds += [z3.Contains(z(x), z3.StringVal(": ")) for x in c.cell(hd[1]).data]
+        return z3.And(*conds)
 
     def decided(c, f):
         """value of a formula that the path condition decides (request spec is evaluated per path)."""
@@ -324,25 +339,25 @@ def install_request(e):
         od = old.cell(a["options"]).data
         host, port, url, resource = z(a["host"]), z(a["port"], "int"), z(a["url"]), z(a["resource"])
 
-        def opt(name):
+        def opt(name, truthy=None):
+            """(is the option in effect, its value): presence and truthiness are decided together, as the code tests them."""
             ent = od.get(name)
             if ent is None:
                 return False, None
-            p = decided(c, ent[0]) if ent[0] is not True else True
-            return p, ent[1]
+            p = ent[0] if ent[0] is not True else z3.BoolVal(True)
+            if truthy is not None:
+                p = z3.And(p, truthy(ent[1]))
+            return decided(c, p), ent[1]
+        nonempty = lambda v: z3.Length(z(v)) > 0
         lines = [Cc(Sv("GET "), resource, Sv(" HTTP/1.1")), Sv("Upgrade: websocket")]
         packed = z3.If(z3.Contains(host, Sv(":")), Cc(Sv("["), host, Sv("]")), host)
         hostport = z3.If(z3.Or(port == 80, port == 443), packed, Cc(packed, Sv(":"), z3.If(port >= 0, z3.IntToStr(port), Cc(Sv("-"), z3.IntToStr(-port)))))
-        hp, hv = opt("host")
-        if hp is None:
-            return None
-        use_host = hp and decided(c, z3.Length(z(hv)) > 0)
+        use_host, hv = opt("host", nonempty)
         if use_host is None:
             return None
         lines.append(Cc(Sv("Host: "), z(hv)) if use_host else Cc(Sv("Host: "), hostport))
-        sp, sv = opt("suppress_origin")
-        sup = sp and decided(c, z(sv, "bool"))
-        if sp is None or sup is None:
+        sup, sv = opt("suppress_origin", lambda v: z(v, "bool"))
+        if sup is None:
             return None
         if not sup:
             op, ov = opt("origin")
@@ -367,10 +382,7 @@ def install_request(e):
             lines.append(Cc(Sv("Sec-WebSocket-Key: "), key_term))
         if not own_ver:
             lines.append(Sv("Sec-WebSocket-Version: 13"))
-        cp, cv = opt("connection")
-        if cp is None:
-            return None
-        usec = cp and decided(c, z3.Length(z(cv)) > 0)
+        usec, cv = opt("connection", nonempty)
         if usec is None:
             return None
         lines.append(Cc(Sv("Connection: "), z(cv)) if usec else Sv("Connection: Upgrade"))
@@ -382,11 +394,8 @@ def install_request(e):
                 j = Cc(j, Sv(","), s_)
             lines.append(Cc(Sv("Sec-WebSocket-Protocol: "), j))
         lines += hdr_items
-        ckp, ckv = opt("cookie")
-        if ckp is None:
-            return None
+        have_client, ckv = opt("cookie", nonempty)
         server_cookie = jar_cookie(host)
-        have_client = ckp and decided(c, z3.Length(z(ckv)) > 0)
         have_server = decided(c, z3.Length(server_cookie) > 0)
         if have_client is None or have_server is None:
             return None
@@ -425,7 +434,8 @@ def install_request(e):
             keyc = z(key) == key_of_draw(d0)
         return z3.And(*eqs, keyc, z(c.ghost["draws"]) == d0 + 1)
     e.add(Contract(HS + "_get_handshake_headers",
-                   cases=[(f"header-{k}", ghh_case(k)) for k in ("absent", "list", "dict", "dict-own-key")],
+                   cases=[(f"header-{k}", ghh_case(k)) for k in ("absent+addressing", "absent+negotiation", "list+none", "dict+none", "dict-own-key+none",
+                                                                  "list+everything", "dict+everything")],
                    requires=ghh_req, ensures=ghh_post,
                    result=lambda c, a: (c.alloc("list", None, SymSeq(c.fresh("int", "nlines"), lambda c_, i: c_.fresh("str", "line"), "request")), c.fresh("str", "wskey")),
                    havoc=ck_havoc, modifies=lambda c, a: ["ghost:draws"], props=("C10", "C20", "C09"),
